@@ -98,6 +98,12 @@ func (c *Conv) Apply(inputs []tensor.Tensor) ([]tensor.Tensor, error) {
 	kernel := inputs[1]
 	bias := inputs[2]
 
+	// Everything inferred from the operands below belongs to this call only; a next Apply on
+	// this operator has to infer it again from its own operands.
+	defer func(dilations, kernelShape, pads, strides []int) {
+		c.dilations, c.kernelShape, c.pads, c.strides = dilations, kernelShape, pads, strides
+	}(c.dilations, c.kernelShape, c.pads, c.strides)
+
 	if len(c.dilations) == 0 {
 		c.setDefaultDilations(x)
 	}
